@@ -84,7 +84,16 @@ def pkl_read(file_info, tag=None):
 WRITE_DELAY = {"s": 0.0}
 
 
+WRITE_FAIL = {"ids": set()}
+
+
+class InjectedWriteFailure(OSError):
+    """Raised by the harness' own writer for chosen files (a full disk, a refused connection)."""
+
+
 def pkl_write(data, file_info, stamp=None):
+    if WRITE_FAIL["ids"] and isinstance(data, dict) and data.get("id") in WRITE_FAIL["ids"]:
+        raise InjectedWriteFailure("harness: writing this file fails")
     if stamp is not None:
         data = dict(data, write_stamp=stamp)
     with open(file_info.path, "wb") as fh:
@@ -422,6 +431,72 @@ class History:
             self.flags.add("partial")
         return self.verify("move" if not copy else "copy", allowed, tr)
 
+    def step_failed_convert_move(self):
+        """A converting move/copy in which the target handler fails for one file: whatever else happens,
+        no file's content may be lost - each selected file is afterwards still at its source (unchanged)
+        or at its target (converted), and the file whose write failed is still at its source."""
+        rng = self.rng
+        cands = [n for n in sorted(self.filesets) if self.filesets[n][0] is not None and self.files_of(n)]
+        if not cands:
+            return True
+        src = rng.choice(cands)
+        fs, tkey, suffix = self.filesets[src]
+        chosen = self.files_of(src)
+        victim = rng.choice(chosen)
+        copy = rng.random() < 0.3
+        tname = "t%d" % len(self.filesets)
+        tkey2 = rng.choice(sorted(TEMPLATES))
+        suffix2 = rng.choice(SUFFIXES)
+        self.steps.append(["failed-convert-move", src, tname, tkey2, suffix2, copy,
+                           os.path.relpath(victim, self.root)])
+        self.rec.ev()
+        self.rec.count("step.failed_convert_move")
+        target = make_fs(self.root, tkey2, suffix2, tname, worker_type="thread",
+                         temp_dir=self.root + "/tmp-compress")
+        self.filesets[tname] = (target, tkey2, suffix2)
+        WRITE_FAIL["ids"] = {self.model[victim]["id"]}
+        raised = None
+        try:
+            with warnings.catch_warnings():
+                warnings.simplefilter("ignore")
+                fs.move(target, convert=True, copy=copy)
+        except Exception as exc:
+            raised = exc
+        finally:
+            WRITE_FAIL["ids"] = set()
+        have = listing(self.root)
+        new_model, new_meta = dict(self.model), dict(self.meta)
+        for p in chosen:
+            _, t0, t1, sat = self.meta[p]
+            q = self.name_for(tname, t0, t1, sat)
+            content = dict(self.model[p])
+            if fs.read_args.get("tag"):
+                content["read_tag"] = fs.read_args["tag"]
+            if fs.post_reader is not None:
+                content["post"] = "seen"
+
+            def holds(path, want):
+                try:
+                    return path in have and raw_read(path) == want
+                except Exception:
+                    return False
+            at_source, at_target = holds(p, self.model[p]), holds(q, content)
+            if not at_source and not at_target or (p == victim or copy) and not at_source:
+                self.rec.violation("lost-in-failed-move", self.case(),
+                                   {"file": os.path.relpath(p, self.root), "write_failed_for_this_file": p == victim,
+                                    "copy": copy, "at_source": at_source, "at_target": at_target,
+                                    "move_raised": repr(raised)})
+                return False
+            if at_target:
+                new_model[q] = content
+                new_meta[q] = (tname, t0, t1, sat)
+            if not at_source:
+                del new_model[p]
+                del new_meta[p]
+                self.moved_away.setdefault(src, []).append((t0, t1, sat))
+        self.model, self.meta = new_model, new_meta
+        return self.verify("converting move with a failing target writer")
+
     def step_parallel_convert(self):
         """Files with identical names in different directories (same time of day on several days),
         converted to a compressed target by parallel workers with a slow writer."""
@@ -637,6 +712,8 @@ def run_history(rec, seed, hrng):
                 ok = h.step_delete()
             elif r < 0.86:
                 ok = h.step_recopy()
+            elif r < 0.9:
+                ok = h.step_failed_convert_move()
             else:
                 ok = h.step_read()
             if not ok:
@@ -723,6 +800,56 @@ for k in range(4):
                 (df1["name"].values == ds["name"].values).all()
             if not ok:
                 out["violations"].append({"why": "CSV read-back differs", "k": k})
+    except Exception as exc:
+        import traceback
+        out["violations"].append({"why": "exception", "exception": repr(exc), "trace": traceback.format_exc()[-900:]})
+if suffix.split(".")[1] in ("nc", "h5"):
+    # overwrite histories and variable orders of grouped data
+    def same(back, want, what):
+        for v in want.data_vars:
+            if v not in back.variables:
+                out["violations"].append({"why": what + ": variable missing after read-back", "variable": v})
+                return False
+            a, b = back[v].values, want[v].values
+            if a.shape != b.shape or not np.array_equal(np.asarray(a, dtype=float), np.asarray(b, dtype=float),
+                                                        equal_nan=True):
+                out["violations"].append({"why": what + ": variable differs", "variable": v,
+                                          "got": repr(a)[:120], "want": repr(b)[:120]})
+                return False
+        return True
+    try:
+        t0 = base + dt.timedelta(days=3, seconds=int(rng.integers(0, 3000)))
+        t1 = t0 + dt.timedelta(seconds=600)
+        n1, n2 = int(rng.integers(5, 20)), int(rng.integers(1, 5))
+        ds1 = xr.Dataset({"g/a": (("g/x",), rng.normal(size=n1)), "g/b": (("g/x",), rng.normal(size=n1)),
+                          "h/c": (("h/y",), np.arange(3.0))})
+        ds2 = xr.Dataset({"g/a": (("g/x",), rng.normal(size=n2)), "k/d": (("k/z",), np.arange(2.0) + 7)})
+        fs[t0:t1] = ds1
+        ok = same(fs.read(fs.get_filename((t0, t1))), ds1, "groups only, first write")
+        fs[t0:t1] = ds2
+        out["writes"] += 2
+        back = fs.read(fs.get_filename((t0, t1)))
+        if ok and same(back, ds2, "groups only, overwritten"):
+            old = sorted({"g/b", "h/c"} & set(back.variables))
+            if old:
+                out["violations"].append({"why": "overwritten file still holds variables of the old content",
+                                          "variables": old})
+        # a group variable listed before the first root variable
+        t0 = t0 + dt.timedelta(hours=2)
+        t1 = t0 + dt.timedelta(seconds=600)
+        ds3 = xr.Dataset()
+        ds3["grp/bt"] = (("obs", "grp/channel"), rng.normal(size=(n1, 2)))
+        ds3["temp"] = ("obs", rng.normal(size=n1))
+        ds3["grp/q"] = (("obs",), rng.normal(size=n1))
+        ds3["count"] = ("obs", np.arange(n1, dtype="int32"))
+        fs[t0:t1] = ds3
+        out["writes"] += 1
+        same(fs.read(fs.get_filename((t0, t1))), ds3, "group variable listed first")
+        # overwrite of ordinary data with fewer points
+        ds4 = ds3.isel(obs=slice(0, max(1, n1 // 2)))
+        fs[t0:t1] = ds4
+        out["writes"] += 1
+        same(fs.read(fs.get_filename((t0, t1))), ds4, "overwritten with fewer points")
     except Exception as exc:
         import traceback
         out["violations"].append({"why": "exception", "exception": repr(exc), "trace": traceback.format_exc()[-900:]})
